@@ -52,6 +52,7 @@ type (
 		Text   string
 	}
 	ModuleV struct{ S *Scope }
+	Ptr     struct{ V Value } // result of &x: only its pointee's rendering is observed
 	Poison  struct{} // a value the statements do not determine (fall-off-the-end results, statement values)
 	Truth   struct{ B bool } // result of && / ||: only its truthiness is specified
 )
@@ -118,6 +119,8 @@ func Render(v Value) string {
 		return "map[interface {}]interface {}{" + strings.Join(items, " ") + "}"
 	case *Closure, *Host:
 		return "func"
+	case *Ptr:
+		return "&" + Render(v.V)
 	case *ModuleV:
 		return "*env.Env"
 	case *Poison:
@@ -743,6 +746,12 @@ func (in *Interp) expr(e gen.Expr, sc *Scope, fr *frame) (Value, *ErrVal) {
 		return nil, nil
 	case *gen.Paren:
 		return in.expr(e.X, sc, fr)
+	case *gen.AddrOf:
+		v, err := in.expr(e.X, sc, fr)
+		if err != nil {
+			return nil, err
+		}
+		return &Ptr{v}, nil
 	case *gen.Name:
 		v, ok := sc.lookup(e.N)
 		if !ok {
